@@ -4,6 +4,10 @@
 //!   `np a b c ...`                    next_permutation on a Vec<i64>; prints `R <0|1> a b c ...`
 //!   `ip <lim> a b c ...`              iter_permutations(Vec<i64>); prints `R a b c ; a c b ; ...` (every item closed by `;`)
 //!   `n4|n4d|n8 n m i j`               prints `R a b a b ...`
+//!   `subck|supck <ty> <x> <lim>`     implementation-level search (checks/c15.py `extra`): runs the iterator without printing
+//!                                     the items; prints `K <count> <ok> <first> <last>` where ok = 1 iff every item is a
+//!                                     submask (supermask) of x and the items are strictly decreasing (increasing) as
+//!                                     unsigned bit patterns
 //! Iterators are cut after `lim` items; the generator passes one more than the longest correct output, so a cut
 //! output is always a wrong output (a broken iterator that never ends cannot hang or flood the check).
 use rlib_iter::*;
@@ -31,6 +35,35 @@ macro_rules! masks {
     }};
 }
 
+macro_rules! maskck {
+    ($t:ty, $u:ty, $toks:expr) => {{
+        let t = $toks;
+        let x = p::<$u>(t[2]) as $t;
+        let ux = x as $u;
+        let lim: usize = p(t[3]);
+        let sub = t[0] == "subck";
+        let it: Box<dyn Iterator<Item = $t>> =
+            if sub { Box::new(iter_submasks::<$t>(x)) } else { Box::new(iter_supermasks::<$t>(x)) };
+        let (mut cnt, mut ok) = (0u64, true);
+        let (mut first, mut prev): (Option<$u>, Option<$u>) = (None, None);
+        for v in it.take(lim) {
+            let uv = v as $u;
+            if first.is_none() {
+                first = Some(uv);
+            }
+            if sub {
+                ok &= uv & ux == uv && prev.map_or(true, |q| uv < q);
+            } else {
+                ok &= uv & ux == ux && prev.map_or(true, |q| uv > q);
+            }
+            prev = Some(uv);
+            cnt += 1;
+        }
+        format!("K {} {} {} {}", cnt, ok as u8, first.map_or("-".to_string(), |v| v.to_string()),
+                prev.map_or("-".to_string(), |v| v.to_string()))
+    }};
+}
+
 fn cells<I: Iterator<Item = (usize, usize)>>(it: I) -> String {
     let mut s = String::from("R");
     for (a, b) in it.take(NB_LIMIT) {
@@ -54,6 +87,24 @@ fn main() {
             "i128" => masks!(i128, u128, t),
             "usize" => masks!(usize, usize, t),
             "isize" => masks!(isize, usize, t),
+            other => {
+                eprintln!("harness: unknown type {}", other);
+                std::process::exit(3)
+            }
+        },
+        "subck" | "supck" => match t[1] {
+            "u8" => maskck!(u8, u8, t),
+            "i8" => maskck!(i8, u8, t),
+            "u16" => maskck!(u16, u16, t),
+            "i16" => maskck!(i16, u16, t),
+            "u32" => maskck!(u32, u32, t),
+            "i32" => maskck!(i32, u32, t),
+            "u64" => maskck!(u64, u64, t),
+            "i64" => maskck!(i64, u64, t),
+            "u128" => maskck!(u128, u128, t),
+            "i128" => maskck!(i128, u128, t),
+            "usize" => maskck!(usize, usize, t),
+            "isize" => maskck!(isize, usize, t),
             other => {
                 eprintln!("harness: unknown type {}", other);
                 std::process::exit(3)
